@@ -208,7 +208,7 @@ fn scenario_routing(args: &Args, report: &mut Report) {
     }
 
     for opi in 0..n_ops {
-        if report.num_violations() >= 3 {
+        if report.num_violations() >= 3 || report.violation_occurrences() >= 8 {
             break;
         }
         let s = r.usize(n_slots);
